@@ -5,6 +5,7 @@ prove, for all arguments, that the translated function is what the Exec model us
 -/
 import NeoModel.Generated.GoFuncs
 import NeoModel.Model.Exec
+import NeoModel.Proofs.ExecFacts
 namespace NeoModel.GoFuncsTie
 open NeoModel NeoModel.Generated NeoModel.Exec
 
@@ -40,5 +41,66 @@ theorem ehc_flags (c fo : Int) :
 
 example : (natStep (.setFee 777) 0 Flags.all (fun _ => none)).map (·.ws) = some [.set (policyTab, 0) 777] := by decide
 example : GoFuncs.policySetFeePerByte 777 true 5 = some [5, 777] := by decide
+
+/-- interop.Context.AddNotification (HFEchidna, Application trigger = 0x40): under the invariant
+    `notification_limit` (the list never exceeds 512) the translated function accepts the notification
+    exactly when the model's `notify` / native-event rule does, and then the list is the appended one;
+    otherwise the list is left as it is and an error is returned (the callers panic). -/
+theorem addNotification_matches_model (old appended : Int) (n : Nat) (hn : n ≤ maxNotifications) :
+    GoFuncs.addNotification old true 64 (n : Int) appended =
+      if n < maxNotifications then ("ok", appended) else ("err", old) := by
+  unfold GoFuncs.addNotification maxNotifications at *
+  by_cases h : n < 512
+  · have : ¬ ((n : Int) = 512) := by omega
+    simp [h, this]
+  · have : (n : Int) = 512 := by omega
+    simp [h, this]
+
+/-- outside the Application trigger (OnPersist / PostPersist natives) the limit does not apply. -/
+theorem addNotification_persist_triggers (old appended n trig : Int) (ht : trig ≠ 64) :
+    GoFuncs.addNotification old true trig n appended = ("ok", appended) := by
+  unfold GoFuncs.addNotification
+  have : ¬ (trig = 64 ∧ n = 512) := fun h => ht h.1
+  simp [this]
+
+/-- callflag.Has, translated, is the model's flag test for every pair of flag sets (16 x 16). -/
+theorem callFlagHas_matches_model (f m : Flags) :
+    GoFuncs.callFlagHasC04 (m.toNat : Int) (f.toNat : Int) = f.has m.toNat := by
+  obtain ⟨a, b, c, d⟩ := f
+  obtain ⟨a', b', c', d'⟩ := m
+  cases a <;> cases b <;> cases c <;> cases d <;> cases a' <;> cases b' <;> cases c' <;> cases d' <;> decide
+
+/-- ... and `Flags.has` of a mask is the conjunction the model's conditions spell out. -/
+theorem flags_has_and (f m : Flags) : f.has m.toNat = ((f.and m).toNat == m.toNat) := by
+  obtain ⟨a, b, c, d⟩ := f
+  obtain ⟨a', b', c', d'⟩ := m
+  cases a <;> cases b <;> cases c <;> cases d <;> cases a' <;> cases b' <;> cases c' <;> cases d' <;> decide
+
+/-- contract/call.go callInternal: for a method that is not `Safe` the requested flags are handed to
+    callExFromNative unchanged whenever the call is permitted (manifest permission check), whatever the
+    hardfork and the calling context; for a Safe method WriteStates|AllowNotify are removed. The model's
+    `call c fl body` passes `fl` on (the interpreter contracts' `run` is not Safe). -/
+theorem callInternal_passes_flags (f : Int) (hasReturn isDynamic : Bool) (vmctx : Int) (ctxNotNil deployed domovoi : Bool)
+    (mf : Int) (mfNotNil canCall : Bool) (curr : Int) (currErr : Bool) (currM : Int) :
+    GoFuncs.c04CallInternal f hasReturn isDynamic false vmctx ctxNotNil deployed domovoi mf mfNotNil canCall curr currErr currM =
+      if ctxNotNil = true ∧ deployed = true ∧ mfNotNil = true ∧ canCall = false then none else some [f] := by
+  unfold GoFuncs.c04CallInternal
+  cases ctxNotNil <;> cases deployed <;> cases domovoi <;> cases mfNotNil <;> cases canCall <;> cases currErr <;> simp
+
+theorem callInternal_safe_masks (f : Int) (hasReturn isDynamic : Bool) (vmctx : Int) (a b c : Bool) (mf : Int) (d e : Bool)
+    (curr : Int) (g : Bool) (currM : Int) :
+    GoFuncs.c04CallInternal f hasReturn isDynamic true vmctx a b c mf d e curr g currM = some [GoFuncs.bandnot f 10] := by
+  unfold GoFuncs.c04CallInternal
+  simp
+
+/-- interop.Context.SyscallHandler: the handler of a system call runs only if the context's call flags
+    contain the RequiredFlags (the order: unknown id, flags, price, handler) — the guard in front of every
+    `put` / `del` / `notify` / `ifp` / `call` of the model. -/
+theorem syscallHandler_checks_flags_first (id fn : Int) (cf : Int) (price fee : Int) (gasErr funcErr : Bool) :
+    GoFuncs.c04SyscallHandler id fn false cf false price fee gasErr funcErr = "err" ∧
+    GoFuncs.c04SyscallHandler id fn false cf true price fee false funcErr = (if funcErr then "f_Func_ic_err" else "ok") := by
+  unfold GoFuncs.c04SyscallHandler
+  simp
+
 
 end NeoModel.GoFuncsTie
